@@ -228,6 +228,8 @@ def term(ctx):
                 found_here += 1
                 inst = "api=%s" % nme
                 v = variant(lb, lp) if lb is b else None
+                if v is None:
+                    v = popping_variant(lb, lp)
                 if v is None or v[0] != "ok":
                     v2 = semantic_variant(ctx, lb, lp, entry=b)
                     v = v2 if v2 is not None else v
@@ -408,6 +410,28 @@ def semantic_variant(ctx, b, lp, entry=None):
             return None
         why = why or found
     return ("ok", why + " (every path back to the loop header)")
+
+
+def popping_variant(b, lp):
+    """`while let Some(x) = v.pop()`: every iteration removes an element and nothing in the loop adds one to a vector of
+    that element type, so the length is the variant"""
+    bl = b["blocks"]
+    pops, grows = [], []
+    for n in lp["nodes"]:
+        t = bl[n]["term"]
+        if t["k"] != "call":
+            continue
+        cn = F.callee_name(t)
+        short = cn.rsplit("::", 1)[1].split("::<")[0] if "::" in cn else cn
+        g = (t["f"].get("gargs") or [""])[0]
+        if cn.startswith(("std::vec::Vec", "std::collections::VecDeque")) and short in ("pop", "pop_front", "pop_back"):
+            pops.append(g)
+        if cn.startswith(("std::vec::Vec", "std::collections::VecDeque")) and short in ("push", "push_back", "push_front", "insert", "extend",
+                                                                                         "append", "extend_from_slice", "resize"):
+            grows.append(g)
+    if pops and not any(g in pops for g in grows):
+        return ("ok", "the popped vector's length (nothing in the loop adds to it)")
+    return None
 
 
 def max_with_positive_const(b, op):
